@@ -81,6 +81,14 @@ class CircleCurve(AnalyticCurve):
     def _get_circle_point(self, t: float) -> NPVectorType:
         return f.rotate(self.rim.position, t, self.normal, self.origin.position)
 
+    def mirror(self, normal: VectorType, origin: Optional[PointType] = None):
+        super().mirror(normal, origin)
+        # a reflection reverses the sense of rotation; flip the normal to keep
+        # the mirrored curve's points at the mirror images of the original's
+        self.atop.position = 2 * self.origin.position - self.atop.position
+
+        return self
+
     @property
     def normal(self) -> NPVectorType:
         return self.atop.position - self.origin.position
